@@ -342,11 +342,15 @@ impl<'tcx> Cx<'tcx> {
                 o.s("k", "copy");
                 let x = self.place(body, p);
                 o.raw("place", &x);
+                let t = p.ty(&body.local_decls, self.tcx).ty;
+                o.s("ty", &self.ty_str(t));
             }
             Operand::Move(p) => {
                 o.s("k", "move");
                 let x = self.place(body, p);
                 o.raw("place", &x);
+                let t = p.ty(&body.local_decls, self.tcx).ty;
+                o.s("ty", &self.ty_str(t));
             }
             Operand::Constant(c) => {
                 o.s("k", "const");
